@@ -701,4 +701,514 @@ theorem inv_remove (t : Track) (n p k : Nat) (h : Inv t) : Inv (removeSubstate t
   rw [hg.2.2]
   exact CohTV_take _ _ _ _ _ hg.2.1
 
+def newParts (subs : NodeSubstates) : List (Nat × TPart) :=
+  subs.foldl (fun acc ps => IMap.set acc ps.1 (SMap.ofList (ps.2.map (fun kv => (kv.1, TV.new kv.2))))) []
+
+theorem createNode_nodes (t : Track) (n : Nat) (subs : NodeSubstates) :
+    (createNode t n subs).nodes = IMap.set t.nodes n { parts := newParts subs, isNew := true } := rfl
+
+theorem newParts_prop (subs : NodeSubstates) :
+    ∀ x ∈ newParts subs, SMap.Sorted x.2 ∧ ∀ k tv, SMap.get? x.2 k = some tv → ∃ v, tv = TV.new v := by
+  unfold newParts
+  refine IMap.forall_foldl_set (fun (part : TPart) => SMap.Sorted part ∧ ∀ k tv, SMap.get? part k = some tv → ∃ v, tv = TV.new v)
+    subs (fun kvs => SMap.ofList (kvs.map (fun kv => (kv.1, TV.new kv.2)))) [] (by simp) ?_
+  · intro kvs
+    refine ⟨SMap.sorted_ofList _, ?_⟩
+    intro k tv hg
+    rw [SMap.get?_ofList, lastBinding_map] at hg
+    cases hl : lastBinding kvs k with
+    | none => rw [hl] at hg; simp at hg
+    | some v => rw [hl] at hg; simp at hg; exact ⟨v, hg.symm⟩
+
+/-- `create_node` on a fresh node id (nothing in the base database under `n`) keeps the invariant -/
+theorem inv_create (t : Track) (n : Nat) (subs : NodeSubstates) (h : Inv t)
+    (hfresh : ∀ p, t.db (n, p) = []) : Inv (createNode t n subs) := by
+  have hnodes := createNode_nodes t n subs
+  have hpart : ∀ n' p', partOf (createNode t n subs).nodes n' p'
+      = if n' = n then (match IMap.get? (newParts subs) p' with | none => [] | some part => part)
+        else partOf t.nodes n' p' := by
+    intro n' p'
+    rw [hnodes]
+    unfold partOf
+    rw [IMap.get?_set]
+    by_cases hnn : n' = n
+    · simp only [hnn, if_true]
+    · simp only [hnn, if_false]
+  have hprop : ∀ p' part, IMap.get? (newParts subs) p' = some part →
+      SMap.Sorted part ∧ ∀ k tv, SMap.get? part k = some tv → ∃ v, tv = TV.new v :=
+    fun p' part hg => newParts_prop subs (p', part) (IMap.mem_of_get? _ p' part hg)
+  refine ⟨⟨h.wf.dbWF, ?_, ?_⟩, ⟨?_, ?_⟩, ?_⟩
+  · intro n' p'
+    rw [hpart]
+    split
+    · cases hg : IMap.get? (newParts subs) p' with
+      | none => simp [SMap.Sorted]
+      | some part => exact (hprop p' part hg).1
+    · exact h.wf.sorted n' p'
+  · intro n' hn'
+    have hn'' : isNewIn (IMap.set t.nodes n { parts := newParts subs, isNew := true }) n' = true := hn'
+    unfold isNewIn at hn''
+    rw [IMap.get?_set] at hn''
+    by_cases hnn : n' = n
+    · subst hnn; exact hfresh
+    · simp only [hnn, if_false] at hn''
+      exact h.wf.fresh n' hn''
+  · rw [hnodes]; exact IMap.nodup_set _ _ _ h.nodup.outer
+  · rw [hnodes]
+    exact IMap.forall_set (fun (_ : Nat) (nd : TNode) => IMap.Nodup nd.parts) t.nodes n _ h.nodup.inner
+      (by unfold newParts
+          exact IMap.nodup_foldl_set_g subs (fun kvs => SMap.ofList (kvs.map (fun kv => (kv.1, TV.new kv.2)))) [] (by simp [IMap.Nodup]))
+  · intro n' p' k tv hg
+    rw [hpart] at hg
+    by_cases hnn : n' = n
+    · subst hnn
+      simp only [if_true] at hg
+      cases hgp : IMap.get? (newParts subs) p' with
+      | none => rw [hgp] at hg; simp at hg
+      | some part =>
+        rw [hgp] at hg
+        obtain ⟨v, rfl⟩ := (hprop p' part hgp).2 k tv hg
+        show (createNode t n' subs).db.get (n', p') k = none
+        show SMap.get? (t.db (n', p')) k = none
+        rw [hfresh p']; rfl
+    · simp only [hnn, if_false] at hg
+      exact h.coh n' p' k tv hg
+
+theorem inv_scanKeys (t : Track) (n p limit : Nat) (h : Inv t) : Inv (scanKeys t n p limit).1 := by
+  unfold scanKeys
+  simp only []
+  rcases scanTrackedKeys limit (trackedOr t n p) with ⟨items, rem⟩
+  simp only []
+  split
+  · exact h
+  · exact inv_ensurePart t n p h
+
+theorem inv_scanSorted (t : Track) (n p limit : Nat) (h : Inv t) :
+    Inv (scanSortedSubstates t n p limit).1 := inv_ensurePart t n p h
+
+theorem inv_forceWrite (t t' : Track) (n p k : Nat) (h : Inv t) (hf : forceWrite t n p k = some t') : Inv t' := by
+  unfold forceWrite at hf
+  cases hl : lookupTV t n p k with
+  | none => rw [hl] at hf; simp at hf
+  | some tv =>
+    rw [hl] at hf
+    simp only [Option.some.injEq] at hf
+    subst hf
+    exact ⟨⟨h.wf.dbWF, h.wf.sorted, h.wf.fresh⟩, h.nodup, h.coh⟩
+
+theorem inv_deletePartition (t : Track) (n p : Nat) (h : Inv t) : Inv (deletePartition t n p) :=
+  ⟨⟨h.wf.dbWF, h.wf.sorted, h.wf.fresh⟩, h.nodup, h.coh⟩
+
+/-! ### drain_substates -/
+
+def presentEntriesT (part : TPart) : List (Nat × Nat) :=
+  part.filterMap (fun x => match x.2.get with | some v => some (x.1, v) | none => none)
+
+/-- present entries of partition `(n,p)` in the order `drain_substates` visits them -/
+def presentEntries (t : Track) (n p : Nat) : List (Nat × Nat) :=
+  presentEntriesT (partOf t.nodes n p) ++ untrackedDb (partOf t.nodes n p) (t.db (n, p))
+
+theorem TV.take_eq (tv : TV) : tv.take = (tv.take.1, tv.get) := by
+  rw [← TV.take_snd]
+
+theorem drainTracked_spec (r : Nat) (part : TPart) :
+    (drainTracked r part).2.1 = (presentEntriesT part).take r ∧
+    (drainTracked r part).2.2 = r - (drainTracked r part).2.1.length ∧
+    (∀ k, SMap.get? (drainTracked r part).1 k
+        = match SMap.get? part k with
+          | none => none
+          | some tv => if k ∈ (drainTracked r part).2.1.map (·.1) then some tv.take.1 else some tv) ∧
+    (drainTracked r part).1.map (·.1) = part.map (·.1) := by
+  induction part generalizing r with
+  | nil =>
+    cases r <;> simp [drainTracked, presentEntriesT]
+  | cons hd rest ih =>
+    obtain ⟨k0, tv⟩ := hd
+    cases r with
+    | zero =>
+      refine ⟨by simp [drainTracked], by simp [drainTracked], ?_, by simp [drainTracked]⟩
+      intro k
+      simp only [drainTracked, List.map_nil, List.not_mem_nil, if_false]
+      cases SMap.get? ((k0, tv) :: rest) k <;> rfl
+    | succ r =>
+      cases hg : tv.get with
+      | some v =>
+        have ih' := ih r
+        rcases hrec : drainTracked r rest with ⟨l', it, r'⟩
+        rw [hrec] at ih'
+        simp only at ih'
+        obtain ⟨i1, i2, i3, i4⟩ := ih'
+        have hd : drainTracked (r + 1) ((k0, tv) :: rest) = ((k0, tv.take.1) :: l', (k0, v) :: it, r') := by
+          simp only [drainTracked]
+          rw [TV.take_eq tv, hg]
+          simp only [hrec]
+        rw [hd]
+        simp only
+        refine ⟨?_, ?_, ?_, ?_⟩
+        · simp only [presentEntriesT, List.filterMap_cons, hg, List.take_succ_cons]
+          rw [i1]; rfl
+        · simp only [List.length_cons]; omega
+        · intro k
+          simp only [SMap.get?_cons, List.map_cons, List.mem_cons]
+          by_cases hk : k = k0
+          · simp only [hk, if_true, true_or]
+          · simp only [hk, if_false, false_or]
+            exact i3 k
+        · simp only [List.map_cons, i4]
+      | none =>
+        have ih' := ih (r + 1)
+        rcases hrec : drainTracked (r + 1) rest with ⟨l', it, r'⟩
+        rw [hrec] at ih'
+        simp only at ih'
+        obtain ⟨i1, i2, i3, i4⟩ := ih'
+        have hta : tv.take.1 = tv := by rw [TV.take_absent tv hg]
+        have hd : drainTracked (r + 1) ((k0, tv) :: rest) = ((k0, tv) :: l', it, r') := by
+          simp only [drainTracked]
+          rw [TV.take_eq tv, hg, hta]
+          simp only [hrec]
+        rw [hd]
+        simp only
+        refine ⟨?_, i2, ?_, ?_⟩
+        · simp only [presentEntriesT, List.filterMap_cons, hg]
+          exact i1
+        · intro k
+          simp only [SMap.get?_cons]
+          by_cases hk : k = k0
+          · simp only [hk, if_true, hta]; split <;> rfl
+          · simp only [hk, if_false]
+            exact i3 k
+        · simp only [List.map_cons, i4]
+
+theorem sorted_of_keys_eq {V W : Type} (l1 : List (Nat × V)) (l2 : List (Nat × W))
+    (h : l1.map (·.1) = l2.map (·.1)) (hs : SMap.Sorted l1) : SMap.Sorted l2 := by
+  unfold SMap.Sorted at *
+  have h1 : (l1.map (·.1)).Pairwise (· < ·) := by rw [List.pairwise_map]; exact hs
+  rw [h, List.pairwise_map] at h1
+  exact h1
+
+theorem drainDb_eq (part : TPart) (r : Nat) (dbl : List (Nat × Nat)) :
+    drainDb part r dbl = (untrackedDb part dbl).take r := by
+  induction dbl generalizing r with
+  | nil => cases r <;> simp [drainDb, untrackedDb]
+  | cons hd rest ih =>
+    obtain ⟨k, v⟩ := hd
+    cases r with
+    | zero => simp [drainDb]
+    | succ r =>
+      simp only [drainDb, untrackedDb, List.filter_cons]
+      by_cases hc : SMap.contains part k = true
+      · simp only [hc, if_true, Bool.not_true]
+        have := ih (r + 1)
+        simp only [untrackedDb] at this
+        simpa using this
+      · simp only [Bool.not_eq_true] at hc
+        simp only [hc, Bool.not_false, if_true, List.take_succ_cons]
+        have := ih r
+        simp only [untrackedDb] at this
+        simp [this]
+
+theorem get?_insertDrained (part : TPart) (l : List (Nat × Nat)) (k : Nat) :
+    SMap.get? (insertDrained part l) k
+      = match lastBinding l k with
+        | some v => some (TV.readExistAndWrite v .delete)
+        | none => SMap.get? part k := by
+  induction l generalizing part with
+  | nil => rfl
+  | cons hd t ih =>
+    obtain ⟨a, c⟩ := hd
+    simp only [insertDrained, ih, lastBinding]
+    cases lastBinding t k with
+    | some x => rfl
+    | none =>
+      simp only [SMap.get?_insert]
+      split <;> rfl
+
+theorem sorted_insertDrained (part : TPart) (l : List (Nat × Nat)) (h : SMap.Sorted part) :
+    SMap.Sorted (insertDrained part l) := by
+  induction l generalizing part with
+  | nil => exact h
+  | cons hd t ih => exact ih _ (SMap.sorted_insert part hd.1 _ h)
+
+theorem untrackedDb_congr (p1 p2 : TPart) (dbl : List (Nat × Nat))
+    (h : ∀ k, (SMap.get? p1 k).isSome = (SMap.get? p2 k).isSome) : untrackedDb p1 dbl = untrackedDb p2 dbl := by
+  unfold untrackedDb SMap.contains
+  congr 1
+  funext x
+  rw [h]
+
+theorem lastBinding_mem {V : Type} (l : List (Nat × V)) (k : Nat) :
+    (lastBinding l k).isSome = true ↔ k ∈ l.map (·.1) := by
+  induction l with
+  | nil => simp [lastBinding]
+  | cons hd t ih =>
+    obtain ⟨a, c⟩ := hd
+    simp only [lastBinding, List.map_cons, List.mem_cons]
+    cases hl : lastBinding t k with
+    | some x =>
+      rw [hl] at ih
+      simp only [Option.isSome_some, true_iff] at ih ⊢
+      exact Or.inr ih
+    | none =>
+      rw [hl] at ih
+      have : k ∉ t.map (·.1) := fun hm => by simpa using ih.mpr hm
+      by_cases hk : k = a
+      · simp [hk]
+      · simp [hk, this]
+
+theorem get?_isSome_of_mem_keys {V : Type} (l : List (Nat × V)) (k : Nat) (h : k ∈ l.map (·.1)) :
+    (SMap.get? l k).isSome = true := by
+  induction l with
+  | nil => simp at h
+  | cons hd t ih =>
+    obtain ⟨a, c⟩ := hd
+    simp only [SMap.get?_cons]
+    by_cases hk : k = a
+    · simp [hk]
+    · simp only [hk, if_false]
+      apply ih
+      simpa [hk] using h
+
+theorem presentEntriesT_keys (part : TPart) : ∀ x ∈ presentEntriesT part, x.1 ∈ part.map (·.1) := by
+  intro x hx
+  unfold presentEntriesT at hx
+  rw [List.mem_filterMap] at hx
+  obtain ⟨y, hy, hxy⟩ := hx
+  cases hg : y.2.get with
+  | none => rw [hg] at hxy; simp at hxy
+  | some v =>
+    rw [hg] at hxy
+    simp only [Option.some.injEq] at hxy
+    rw [← hxy]
+    exact List.mem_map_of_mem hy
+
+/-- the tracked partition after `drain_substates`, the drained entries -/
+def drainResult (t : Track) (n p limit : Nat) : TPart × List (Nat × Nat) :=
+  let part := partOf t.nodes n p
+  let r := drainTracked limit part
+  let fromDb := if r.2.2 = 0 ∨ isNewIn t.nodes n = true then [] else drainDb r.1 r.2.2 (t.db (n, p))
+  (insertDrained r.1 fromDb, r.2.1 ++ fromDb)
+
+theorem trackedPart_some (t : Track) (n p : Nat) (part : TPart) (h : trackedPart t n p = some part) :
+    partOf t.nodes n p = part := by
+  rw [← trackedOr_eq]; unfold trackedOr; rw [h]
+
+theorem trackedPart_none (t : Track) (n p : Nat) (h : trackedPart t n p = none) :
+    partOf t.nodes n p = [] := by
+  rw [← trackedOr_eq]; unfold trackedOr; rw [h]
+
+/-- normal form of `drain_substates` in terms of observations -/
+theorem drain_nf (t : Track) (n p limit : Nat) :
+    (drainSubstates t n p limit).2 = (drainResult t n p limit).2 ∧
+    (drainSubstates t n p limit).1.db = t.db ∧
+    (∀ n', isNewIn (drainSubstates t n p limit).1.nodes n' = isNewIn t.nodes n') ∧
+    (NodesNodup t.nodes → NodesNodup (drainSubstates t n p limit).1.nodes) ∧
+    (∀ n' p', partOf (drainSubstates t n p limit).1.nodes n' p'
+        = if n' = n ∧ p' = p then (drainResult t n p limit).1 else partOf t.nodes n' p') := by
+  unfold drainSubstates drainResult
+  cases htp : trackedPart t n p with
+  | some part =>
+    have hp := trackedPart_some t n p part htp
+    rw [hp]
+    simp only []
+    rcases hdt : drainTracked limit part with ⟨part', items, rem⟩
+    simp only []
+    by_cases hc : rem = 0 ∨ nodeIsNew t n = true
+    · have hc' : rem = 0 ∨ isNewIn t.nodes n = true := hc
+      simp only [hc, hc', if_true, insertDrained, List.append_nil]
+      refine ⟨trivial, trivial, fun n' => isNewIn_alterPart _ _ _ _ _, fun hn => nodesNodup_alterPart _ _ _ _ hn, ?_⟩
+      intro n' p'
+      rw [partOf_alterPart]
+    · have hc' : ¬ (rem = 0 ∨ isNewIn t.nodes n = true) := hc
+      simp only [hc, hc', if_false]
+      refine ⟨trivial, trivial, ?_, ?_, ?_⟩
+      · intro n'; rw [isNewIn_alterPart, isNewIn_alterPart]
+      · intro hn; exact nodesNodup_alterPart _ _ _ _ (nodesNodup_alterPart _ _ _ _ hn)
+      · intro n' p'
+        rw [partOf_alterPart, partOf_alterPart]
+        by_cases hh : n' = n ∧ p' = p
+        · simp only [hh, and_self, if_true]
+        · simp only [hh, if_false, partOf_alterPart]
+  | none =>
+    have hp := trackedPart_none t n p htp
+    rw [hp]
+    simp only []
+    have hdt : drainTracked limit ([] : TPart) = ([], [], limit) := by cases limit <;> rfl
+    rw [hdt]
+    simp only []
+    by_cases hc : limit = 0 ∨ nodeIsNew t n = true
+    · have hc' : limit = 0 ∨ isNewIn t.nodes n = true := hc
+      simp only [hc, hc', if_true, insertDrained, List.append_nil]
+      refine ⟨trivial, trivial, fun _ => trivial, fun hn => hn, ?_⟩
+      intro n' p'
+      by_cases hh : n' = n ∧ p' = p
+      · obtain ⟨rfl, rfl⟩ := hh; simp only [and_self, if_true]; exact hp
+      · simp only [hh, if_false]
+    · have hc' : ¬ (limit = 0 ∨ isNewIn t.nodes n = true) := hc
+      simp only [hc, hc', if_false, List.nil_append]
+      refine ⟨trivial, trivial, fun n' => isNewIn_alterPart _ _ _ _ _, fun hn => nodesNodup_alterPart _ _ _ _ hn, ?_⟩
+      intro n' p'
+      rw [partOf_alterPart, hp]
+
+theorem drainTracked_isSome (r : Nat) (part : TPart) (k : Nat) :
+    (SMap.get? (drainTracked r part).1 k).isSome = (SMap.get? part k).isSome := by
+  rw [(drainTracked_spec r part).2.2.1 k]
+  cases SMap.get? part k with
+  | none => rfl
+  | some tv => simp only []; split <;> rfl
+
+theorem drainResult_items (t : Track) (h : WF t) (n p limit : Nat) :
+    (drainResult t n p limit).2 = (presentEntries t n p).take limit := by
+  unfold drainResult presentEntries
+  simp only []
+  have hs := drainTracked_spec limit (partOf t.nodes n p)
+  obtain ⟨h1, h2, _, _⟩ := hs
+  have hu : untrackedDb (drainTracked limit (partOf t.nodes n p)).1 (t.db (n, p))
+      = untrackedDb (partOf t.nodes n p) (t.db (n, p)) :=
+    untrackedDb_congr _ _ _ (drainTracked_isSome limit _)
+  generalize hP : presentEntriesT (partOf t.nodes n p) = P at h1
+  have hlen : (P.take limit).length = min limit P.length := List.length_take
+  by_cases hc : (drainTracked limit (partOf t.nodes n p)).2.2 = 0 ∨ isNewIn t.nodes n = true
+  · simp only [hc, if_true, List.append_nil]
+    rcases hc with hr | hnew
+    · rw [h1, List.take_append_of_le_length (by rw [h1] at h2; omega)]
+    · rw [h.fresh n hnew p]
+      simp [untrackedDb, h1]
+  · simp only [hc, if_false]
+    rw [drainDb_eq, hu, h1, List.take_append]
+    have : (drainTracked limit (partOf t.nodes n p)).2.2 = limit - P.length := by
+      rw [h1] at h2; omega
+    rw [this]
+
+theorem mem_take_keys {V : Type} (l : List (Nat × V)) (r : Nat) (k : Nat)
+    (h : k ∈ (l.take r).map (·.1)) : k ∈ l.map (·.1) := by
+  rw [List.mem_map] at h ⊢
+  obtain ⟨x, hx, rfl⟩ := h
+  exact ⟨x, List.mem_of_mem_take hx, rfl⟩
+
+theorem drain_get_aux (t : Track) (n p limit k : Nat) (fromDb : List (Nat × Nat)) :
+    (match SMap.get? (insertDrained (drainTracked limit (partOf t.nodes n p)).1 fromDb) k with
+      | some tv => tv.get
+      | none => SMap.get? (t.db (n, p)) k)
+      = if k ∈ ((drainTracked limit (partOf t.nodes n p)).2.1 ++ fromDb).map (·.1) then none else eff t n p k := by
+  have hs := drainTracked_spec limit (partOf t.nodes n p)
+  obtain ⟨h1, _, h3, _⟩ := hs
+  rw [get?_insertDrained, eff_part]
+  simp only [List.map_append, List.mem_append]
+  cases hl : lastBinding fromDb k with
+  | some v =>
+    have : k ∈ fromDb.map (·.1) := (lastBinding_mem fromDb k).mp (by rw [hl]; rfl)
+    simp only [this, or_true, if_true]
+    rfl
+  | none =>
+    have hnf : k ∉ fromDb.map (·.1) := fun hm => by
+      have := (lastBinding_mem fromDb k).mpr hm
+      rw [hl] at this; simp at this
+    simp only [hnf, or_false]
+    rw [h3 k]
+    cases hg : SMap.get? (partOf t.nodes n p) k with
+    | none =>
+      have hni : k ∉ (drainTracked limit (partOf t.nodes n p)).2.1.map (·.1) := by
+        intro hm
+        rw [h1] at hm
+        have hm' := mem_take_keys _ _ _ hm
+        rw [List.mem_map] at hm'
+        obtain ⟨x, hx, hxk⟩ := hm'
+        have := get?_isSome_of_mem_keys _ k (by rw [← hxk]; exact presentEntriesT_keys _ x hx)
+        rw [hg] at this; simp at this
+      simp only [hni, if_false]
+    | some tv =>
+      simp only []
+      by_cases hi : k ∈ (drainTracked limit (partOf t.nodes n p)).2.1.map (·.1)
+      · simp only [hi, if_true]; exact TV.take_fst_get tv
+      · simp only [hi, if_false]
+
+/-- the tracked values after a drain: drained substates read as absent, the others are unchanged -/
+theorem drainResult_get (t : Track) (n p limit k : Nat) :
+    (match SMap.get? (drainResult t n p limit).1 k with
+      | some tv => tv.get
+      | none => SMap.get? (t.db (n, p)) k)
+      = if k ∈ (drainResult t n p limit).2.map (·.1) then none else eff t n p k := by
+  unfold drainResult
+  exact drain_get_aux t n p limit k _
+
+theorem inv_of_partOf (t t' : Track) (n p : Nat) (fp : TPart) (h : Inv t)
+    (hdb : t'.db = t.db) (hnew : ∀ n', isNewIn t'.nodes n' = isNewIn t.nodes n')
+    (hnd : NodesNodup t'.nodes)
+    (hpart : ∀ n' p', partOf t'.nodes n' p' = if n' = n ∧ p' = p then fp else partOf t.nodes n' p')
+    (hs : SMap.Sorted fp) (hc : ∀ k tv, SMap.get? fp k = some tv → CohTV t.db n p k tv) : Inv t' := by
+  refine ⟨⟨by rw [hdb]; exact h.wf.dbWF, ?_, ?_⟩, hnd, ?_⟩
+  · intro n' p'
+    rw [hpart]
+    split
+    · exact hs
+    · exact h.wf.sorted n' p'
+  · intro n' hn'
+    rw [hnew] at hn'
+    rw [hdb]
+    exact h.wf.fresh n' hn'
+  · intro n' p' k' tv hg
+    rw [hpart] at hg
+    rw [hdb]
+    split at hg
+    · rename_i hh; obtain ⟨rfl, rfl⟩ := hh
+      exact hc k' tv hg
+    · exact h.coh n' p' k' tv hg
+
+theorem lastBinding_mem_val {V : Type} (l : List (Nat × V)) (k : Nat) (v : V)
+    (h : lastBinding l k = some v) : (k, v) ∈ l := by
+  induction l with
+  | nil => simp [lastBinding] at h
+  | cons hd t ih =>
+    obtain ⟨a, c⟩ := hd
+    simp only [lastBinding] at h
+    cases hl : lastBinding t k with
+    | some x =>
+      rw [hl] at h
+      simp only [Option.some.injEq] at h
+      subst h
+      exact List.mem_cons_of_mem _ (ih hl)
+    | none =>
+      rw [hl] at h
+      simp only at h
+      split at h
+      · subst_vars; simp only [Option.some.injEq] at h; subst h; exact List.mem_cons_self ..
+      · simp at h
+
+theorem inv_drain (t : Track) (n p limit : Nat) (h : Inv t) : Inv (drainSubstates t n p limit).1 := by
+  obtain ⟨_, hdb, hnew, hnd, hpart⟩ := drain_nf t n p limit
+  apply inv_of_partOf t _ n p _ h hdb hnew (hnd h.nodup) hpart
+  · unfold drainResult
+    apply sorted_insertDrained
+    exact sorted_of_keys_eq _ _ (drainTracked_spec limit _).2.2.2.symm (h.wf.sorted n p)
+  · intro k tv hg
+    unfold drainResult at hg
+    simp only [] at hg
+    rw [get?_insertDrained] at hg
+    split at hg
+    · -- a drained database entry
+      rename_i v hl
+      simp only [Option.some.injEq] at hg
+      subst hg
+      have hm := lastBinding_mem_val _ k v hl
+      split at hm
+      · simp at hm
+      · rw [drainDb_eq] at hm
+        have hm2 := List.mem_of_mem_take hm
+        unfold untrackedDb at hm2
+        rw [List.mem_filter] at hm2
+        exact SMap.get?_of_mem _ (h.wf.dbWF (n, p)) k v hm2.1
+    · rw [(drainTracked_spec limit _).2.2.1 k] at hg
+      cases hgp : SMap.get? (partOf t.nodes n p) k with
+      | none => rw [hgp] at hg; simp at hg
+      | some tv0 =>
+        rw [hgp] at hg
+        simp only [] at hg
+        have hc0 := h.coh n p k tv0 hgp
+        split at hg
+        · simp only [Option.some.injEq] at hg; subst hg; exact CohTV_take _ _ _ _ _ hc0
+        · simp only [Option.some.injEq] at hg; subst hg; exact hc0
+
+theorem getTracked_db (t : Track) (n p k : Nat) : (getTracked t n p k).1.db = t.db :=
+  by unfold getTracked; cases lookupTV t n p k <;> rfl
+
 end Radix.Track
